@@ -557,7 +557,24 @@ def specStep (l : List Item) : Msg.Op → List Item
   | .addQuery q => ins (uriQueryId, q) l
   | .remove id => remove id l
   | .resetTo inp => resetTo inp
+  | .resetSelf idxs => resetTo (Spec.SortedMultiset.selectOwn l idxs)
   | .reset => []
+
+theorem selectOwn_map {β γ : Type} (f : β → γ) (l : List β) (idxs : List Nat) :
+    (idxs.filterMap (fun i => l[i % l.length]?)).map f = idxs.filterMap (fun i => (l.map f)[i % (l.map f).length]?) := by
+  induction idxs with
+  | nil => rfl
+  | cons i rest ih =>
+    simp only [List.filterMap_cons, List.length_map, List.getElem?_map]
+    cases h : l[i % l.length]? with
+    | none => simpa using ih
+    | some x => simpa using ih
+
+theorem mem_selectOwn {o : Options View} {idxs : List Nat} {x : Opt View} (h : x ∈ Msg.selectOwn o idxs) :
+    x ∈ o.toList := by
+  unfold Msg.selectOwn at h
+  obtain ⟨i, _, hi⟩ := List.mem_filterMap.mp h
+  exact List.mem_of_getElem? hi
 
 theorem read_append_list {m : Mem} (extra : Mem) (v : View) (h : v.len = 0 ∨ v.bid < m.length) :
     (m ++ extra).read v = m.read v := by
@@ -712,6 +729,20 @@ theorem step_spec (g : Nat → Nat) (gb : Nat → Nat → Nat) {r : Msg} (hinv :
       rw [a1, h1]
     · simp only [Bool.false_eq_true, if_false] at h4
       rw [h4.2, a2]; rfl
+  | resetSelf idxs =>
+    -- the sources are the message's own stored values: inside their buffers and below the cursor (the invariant)
+    have hext : ∀ v ∈ (Msg.selectOwn r.opts idxs).map (·.2), InB r.mem v ∧ Below r.vb.bid r.vb.off v := by
+      intro v hv
+      obtain ⟨x, hx, rfl⟩ := List.mem_map.mp hv
+      exact hinv.live x (mem_selectOwn hx)
+    obtain ⟨r', e, h1, h2, h3, h4⟩ := retry_spec gb hinv (contract_reset g (Msg.selectOwn r.opts idxs)) hext
+    refine ⟨r', ?_, h2, ?_, fun _ => h3⟩
+    · simp only [Msg.step, Msg.resetOptionsTo, bind, Except.bind, pure, Except.pure, h1]
+    · simp only [Bool.false_eq_true, if_false] at h4
+      rw [h4.2]
+      show _ = resetTo (Spec.SortedMultiset.selectOwn (items r.mem r.opts) idxs)
+      congr 1
+      exact selectOwn_map (fun x => (x.1, r.mem.read x.2)) r.opts.toList idxs
   | reset =>
     obtain ⟨r', h1, h2, h3, _⟩ := msg_reset_spec hinv
     exact ⟨r', h1, h2, h3, fun h => absurd rfl h⟩
